@@ -44,6 +44,25 @@ type Features struct {
 	TagPage      int  // page size of tags/list when the client does not ask for one (0 = all)
 	DeleteDisabled405 bool // answer 405 (not 404/400) for unsupported deletes
 	CatalogPage       int  // page size of _catalog when the client does not ask for one (0 = all)
+	// LinkStyle: how the next page of a listing is announced. "" one Link header; "split" a first Link
+	// line with an unrelated relation (as a proxy adds resource hints) and the next link in a second
+	// line; "combined" both relations comma separated in one line (RFC 8288 treats all three alike)
+	LinkStyle string
+}
+
+const hintLink = `<https://cdn.example/>; rel="preconnect"`
+
+// setNext announces the next page in the host's Link style.
+func (h *Host) setNext(a *Answer, next string) {
+	switch h.Feat.LinkStyle {
+	case "split":
+		a.Header.Add("Link", hintLink)
+		a.Header.Add("Link", next)
+	case "combined":
+		a.Header.Set("Link", hintLink+", "+next)
+	default:
+		a.Header.Set("Link", next)
+	}
 }
 
 // Full is a registry implementing everything.
@@ -452,7 +471,7 @@ func (n *Net) handle(e *Entry) *Answer {
 			q := url.Values{}
 			q.Set("last", names[len(names)-1])
 			q.Set("n", strconv.Itoa(page))
-			a.Header.Set("Link", fmt.Sprintf("</v2/_catalog?%s>; rel=\"next\"", q.Encode()))
+			h.setNext(a, fmt.Sprintf("</v2/_catalog?%s>; rel=\"next\"", q.Encode()))
 		}
 		if names == nil {
 			names = []string{}
@@ -871,7 +890,7 @@ func (h *Host) tags(e *Entry) *Answer {
 		q := url.Values{}
 		q.Set("last", tags[len(tags)-1])
 		q.Set("n", strconv.Itoa(page))
-		a.Header.Set("Link", fmt.Sprintf("</v2/%s/tags/list?%s>; rel=\"next\"", e.Repo, q.Encode()))
+		h.setNext(a, fmt.Sprintf("</v2/%s/tags/list?%s>; rel=\"next\"", e.Repo, q.Encode()))
 	}
 	if tags == nil {
 		tags = []string{}
@@ -942,7 +961,7 @@ func (h *Host) referrers(e *Entry) *Answer {
 				q[k] = v
 			}
 			q.Set("offset", strconv.Itoa(end))
-			a.Header.Set("Link", fmt.Sprintf("</v2/%s/referrers/%s?%s>; rel=\"next\"", e.Repo, e.Ref, q.Encode()))
+			h.setNext(a, fmt.Sprintf("</v2/%s/referrers/%s?%s>; rel=\"next\"", e.Repo, e.Ref, q.Encode()))
 		} else {
 			end = len(list)
 		}
